@@ -1,6 +1,7 @@
 package ksim
 
 import (
+	appsv1 "k8s.io/api/apps/v1"
 	corev1 "k8s.io/api/core/v1"
 	"encoding/json"
 	"fmt"
@@ -53,6 +54,7 @@ type RunResult struct {
 	TraceHash  string         `json:"traceHash"`
 	LogHash    string         `json:"logHash"`
 	Final      string         `json:"final"`
+	Digest     string         `json:"digest"`
 	Choices    []uint32       `json:"-"`
 	LogLines   []string       `json:"-"`
 }
@@ -61,6 +63,7 @@ type RunOpts struct {
 	KeepLog  bool
 	Property string // selects scenario weights
 	Mutate   func(sc *Scenario, cfg *Config)
+	Forced   map[int]string // systematic fault placement: eligible call index -> fault kind
 }
 
 // RunOne executes one complete simulated run inside a synctest bubble.
@@ -91,6 +94,9 @@ func runInBubble(tape *Tape, seed int64, opts RunOpts) *RunResult {
 	sc, cfg := DrawScenario(tape, opts.Property)
 	if opts.Mutate != nil {
 		opts.Mutate(sc, &cfg)
+	}
+	if opts.Forced != nil {
+		cfg.Forced = opts.Forced
 	}
 	s.Cfg = cfg
 	s.Store = NewStore(simScheme, s.Now)
@@ -140,7 +146,7 @@ func runInBubble(tape *Tape, seed int64, opts RunOpts) *RunResult {
 	}
 	res := &RunResult{Seed: seed, Scenario: sc, Config: cfg, Steps: s.Steps, SimSeconds: s.Elapsed().Seconds(), EndReason: s.EndReason,
 		Writes: len(s.Store.Log), Calls: s.callIdx, Stats: s.Stats, Probes: s.Probes, Violations: s.Violations, Trace: s.Trace,
-		LogHash: s.EvLog.Sum(), Choices: tape.Rec, LogLines: s.EvLog.Lines, Final: s.finalSummary(sc)}
+		LogHash: s.EvLog.Sum(), Choices: tape.Rec, LogLines: s.EvLog.Lines, Final: s.finalSummary(sc), Digest: s.finalDigest(sc)}
 	th := newHashLog(false)
 	for _, l := range s.Trace {
 		th.add(l)
@@ -241,4 +247,53 @@ func statusJSON(o interface{}) string {
 	m := map[string]json.RawMessage{}
 	_ = json.Unmarshal(b, &m)
 	return string(m["status"])
+}
+
+// finalDigest: the abstract terminal cluster state used for fault-free vs. faulty comparison (C06):
+// no timestamps, UIDs, resourceVersions or generated names.
+func (s *Sim) finalDigest(sc *Scenario) string {
+	var sb strings.Builder
+	for _, k := range s.Store.keys {
+		o := s.Store.objs[k]
+		switch k.GK {
+		case gkRollout:
+			ro := o.(*v1beta1.Rollout)
+			succ := "-"
+			if c := rutil.GetRolloutCondition(ro.Status, v1beta1.RolloutConditionSucceeded); c != nil {
+				succ = string(c.Status)
+			}
+			fmt.Fprintf(&sb, "RO[%s %s succ=%s step=%d:%s]", ro.Status.Phase, progressingReason(ro), succ, ro.Status.CurrentStepIndex, ro.Status.CurrentStepState)
+		case gkBR:
+			fmt.Fprintf(&sb, "BR[%s]", k.Name)
+		case gkService:
+			fmt.Fprintf(&sb, "SVC[%s %s]", k.Name, dumpJSON(o.(*corev1.Service).Spec.Selector))
+		case gkIngress:
+			fmt.Fprintf(&sb, "ING[%s]", k.Name)
+		case gkDeployment:
+			d := o.(*appsv1.Deployment)
+			name := k.Name
+			if d.Labels[canaryDepLabel] != "" {
+				name = "<canary>"
+			}
+			fmt.Fprintf(&sb, "DEP[%s paused=%v n=%d %s ctl=%v inprog=%v strat=%v]", name, d.Spec.Paused, *d.Spec.Replicas, d.Spec.Strategy.Type, controlledByUID(d) != "", d.Annotations[inProgressAnno] != "", d.Annotations["rollouts.kruise.io/deployment-strategy"] != "")
+		case gkCloneSet:
+			c := o.(*kruisev1alpha1.CloneSet)
+			p := "nil"
+			if c.Spec.UpdateStrategy.Partition != nil {
+				p = c.Spec.UpdateStrategy.Partition.String()
+			}
+			fmt.Fprintf(&sb, "CS[%s part=%s paused=%v n=%d ctl=%v inprog=%v]", k.Name, p, c.Spec.UpdateStrategy.Paused, *c.Spec.Replicas, controlledByUID(c) != "", c.Annotations[inProgressAnno] != "")
+		case gkHTTPRoute:
+			fmt.Fprintf(&sb, "HR[%s %v]", k.Name, decodeHTTPRoute(o.(*gatewayv1beta1.HTTPRoute), sc.Name+"-svc", sc.Name+"-svc-canary"))
+		}
+	}
+	imgs := map[string]int{}
+	for _, k := range s.Store.Keys(gkPod) {
+		p := s.Store.Peek(k).(*corev1.Pod)
+		if p.DeletionTimestamp == nil && len(p.Spec.Containers) > 0 {
+			imgs[p.Spec.Containers[0].Image]++
+		}
+	}
+	fmt.Fprintf(&sb, "PODS%s", dumpJSON(imgs))
+	return sb.String()
 }
